@@ -517,6 +517,8 @@ inductive Eff where
   | handleNHGReferences (ni : String) (orig : Option Unit) (new : Option Unit)
   /-- `r.callResolvedEntryHook(optype, ni, aft, key)` -/
   | resolvedHook (optype : Nat) (ni : String) (aft : Nat) (key : AnyKey)
+  /-- `r.addEntryInternal(ni, op, &oks, &fails, handled)` called by `AddEntry` -/
+  | addEntryInternal (ni : String) (op : Option AFTOperationC)
   /-- the client's `addSendErr(err)` -/
   | addSendErr (e : Option Status)
   /-- the client's `q(m)`: the request is handed to the sender goroutine -/
